@@ -400,6 +400,8 @@ def _conc(x):
 def _num(x):
     if isinstance(x, SBool):
         return x.num()
+    if isinstance(x, np.generic):
+        return x.item()
     return x
 
 
@@ -613,7 +615,7 @@ UFUNC_TABLE = {
     np.rint: s_rint,
     np.isnan: s_isnan,
     np.isfinite: lambda a: not_(s_isnan(a)) if isinstance(a, Sym) else builtins.bool(np.isfinite(a)),
-    np.conjugate: lambda a: a,
+    np.conjugate: lambda a: UVal(core.ufun('CONJ', core.USort, core.USort)(a.t)) if isinstance(a, UVal) else a,
     np.cos: _uf_real("cos"),
     np.sin: _uf_real("sin"),
     np.exp: _uf_real("exp"),
